@@ -1,3 +1,7 @@
 pub mod c15;
 pub mod c19;
 pub mod c01;
+pub mod c02;
+pub mod c03;
+pub mod c08;
+pub mod c07;
